@@ -159,7 +159,8 @@ def _is_mutable_display(sym):
     if isinstance(sym, (ast.List, ast.Dict, ast.Set, ast.ListComp, ast.DictComp, ast.SetComp)):
         return True
     if isinstance(sym, ast.Call) and isinstance(sym.func, ast.Name) and sym.func.id in ('list', 'dict', 'set',
-                                                                                       'OrderedDict'):
+                                                                                       'OrderedDict') \
+            and not sym.args and not sym.keywords:
         return True
     return False
 
